@@ -124,3 +124,21 @@ class HierSim(V3Sig):
 
     def create(self, num, model, **params):
         return [{"eid": f"p{i}", "type": "Parent", "children": [{"eid": f"p{i}c", "type": "Child"}]} for i in range(num)]
+
+
+SHARED_META: Dict[str, Dict[str, Any]] = {}
+
+
+class SharedMetaV2(V3Sig):
+    """Old-API simulator whose instances all return ONE module-level meta dict from init() (very common:
+    ``META = {...}`` at module level)."""
+
+    def init(self, sid, time_resolution=None, cfg=None, **kw):
+        self.sid = sid
+        self.cfg = cfg
+        CALLS.append((sid, "init", (sid,), {"time_resolution": time_resolution, **kw}))
+        key = str((cfg or {}).get("version"))
+        if key not in SHARED_META:
+            SHARED_META[key] = _meta(cfg or {})
+        self.meta = SHARED_META[key]
+        return self.meta
